@@ -452,6 +452,13 @@ def cases(tier, rng):
         out.append(Case("xml.composition", [[t, t, t, [[t, ["midi", t, 5], [["C", 4, 4, [[4, [["C", 4, 1, 64]]]]]]], [t, ["plain", t, 0], []]]]], tag="xml:titles"))
         if '"' not in t:
             out.append(Case("ly.composition", [[t, t, t, [["n", None, [["C", 4, 4, [[4, [["C", 4, 1, 64]]]]]]]]]], tag="ly:titles"))
+    # the same bar several times in one track (the harness adds one Bar object repeatedly)
+    b1 = ["C", 4, 4, [[4, [["C", 4, 1, 64]]], [4, None], [2, [["E", 4, 1, 64], ["G", 4, 1, 64]]]]]
+    b2 = ["G", 3, 4, [[2, [["D", 5, 1, 64]]], [4, [["B", 4, 1, 64]]]]]
+    for bars in ([b1, b1], [b1, b2, b1, b1], [b2, b1, b2], [b1, b1, b1, b2]):
+        out.append(Case("xml.composition", [["t", "a", "", [["tr", None, bars], ["tr2", None, list(reversed(bars))]]]], tag="xml:repeated-bar"))
+        out.append(Case("ly.track", [["t", None, bars]], tag="ly:repeated-bar"))
+        out.append(Case("ly.composition", [["t", "a", "s", [["n", None, bars]]]], tag="ly:repeated-bar"))
     out.append(Case("ly.composition", [["t", "a", "s", []]], tag="ly:empty"))
     out.append(Case("xml.composition", [["t", "a", "s", []]], tag="xml:empty"))
     n_rand = 200 if tier == "quick" else 3000
